@@ -17,7 +17,7 @@ OUTSIDE = ["sizes beyond those listed", "objects reachable only through private 
 
 
 def bounds(tier):
-    return dict(C_D_N=[(2, 1, 3)] if tier == "quick" else [(2, 1, 3), (2, 2, 3), (3, 1, 4), (2, 2, 4)])
+    return dict(C_D_N=[(2, 1, 3)] if tier == "quick" else [(2, 1, 3), (2, 2, 3)])
 
 
 class Frame:
@@ -282,5 +282,5 @@ def job_fa(P, kind):
 def jobs(tier):
     out = [("gmm", "job_gmm", {}), ("kmeans", "job_kmeans", {}), ("misc", "job_misc", {}), ("isv", "job_fa", dict(kind="isv")), ("jfa", "job_fa", dict(kind="jfa"))]
     if tier == "thorough":
-        out += [("gmm@C2D2N3", "job_gmm", dict(size=(2, 2, 3))), ("gmm@C3D1N4", "job_gmm", dict(size=(3, 1, 4))), ("kmeans@K2D2N4", "job_kmeans", dict(size=(2, 2, 4))), ("kmeans@K3D1N3", "job_kmeans", dict(size=(3, 1, 3)))]
+        out += [("gmm@C2D2N3", "job_gmm", dict(size=(2, 2, 3))), ("kmeans@K2D2N3", "job_kmeans", dict(size=(2, 2, 3)))]
     return out
